@@ -821,6 +821,9 @@ BUILTIN_EXC = {"ValueError", "RuntimeError", "TypeError", "KeyError",
 
 def global_name(I, n):
     src = I.src_stack[-1]
+    key = f"{src.relpath}:{n}"
+    if key in I.V.module_globals:
+        return I.V.module_globals[key](I)
     # module-level definitions of the current file
     for node in src.tree.body:
         if isinstance(node, ast.FunctionDef) and node.name == n:
@@ -946,7 +949,7 @@ def getattr(I, base, attr):
         key = f"{base.file}:{base.name}"
         if key in I.V.module_globals:
             return I.getattr(I.V.module_globals[key](I), attr)
-        raise Unsupported(f"package global {key} has no model")
+        return Opaque(f"{base.name}.{attr}")
     m = METHODS.get((_kind(base), attr))
     if m is not None:
         return m(I, base)
@@ -956,6 +959,8 @@ def getattr(I, base, attr):
 
 
 def _kind(v):
+    if isinstance(v, PoolVal):
+        return "pool"
     if isinstance(v, Cell):
         if v.kind == "arr":
             return "struct" if isinstance(v.value, SymStruct) else "seq"
@@ -1809,3 +1814,230 @@ def _logsumexp(I, a, **kw):
 @lib("datetime.datetime.now", "time.time")
 def _now(I, *a, **k):
     return Opaque("time")
+
+
+# ------------------------------------------------ C10: functions & chunks
+class FuncVal:
+    """An abstract user function with a pointwise meaning f1 : P -> Real.
+    `vector` tells how it is *called*: FuncVal(seq) is the element-wise
+    image (the 'vectorised' contract: func(s)[j] = func1(s[j]) and
+    len func(s) = len s); FuncVal(point) = f1(point)."""
+
+    def __init__(self, f1, name):
+        self.f1 = f1
+        self.name = name
+
+    def apply(self, I, arg):
+        a = _val(arg)
+        if isinstance(a, SymSeq):
+            return Cell("arr", SymSeq(a.length,
+                                      lambda i: self.f1(a.get(i)), "Real"))
+        if isinstance(a, Cell) and a.kind == "row":
+            raise Unsupported("FuncVal on a record")
+        return self.f1(a)
+
+
+class ChunkList:
+    """np.array_split result: piece k = x[b(k) : b(k+1)], 0 <= k < K."""
+
+    def __init__(self, x, K, b):
+        self.x, self.K, self.b = x, K, b
+
+    def piece(self, k):
+        lo, hi = self.b(to_int(k)), self.b(to_int(k) + 1)
+        return seq_slice(self.x, lo, hi)
+
+
+class MappedChunks:
+    def __init__(self, chunks, fv):
+        self.chunks, self.fv = chunks, fv
+
+
+class PoolVal:
+    """multiprocessing.Pool-like object: map is order preserving."""
+
+
+def _mk_chunks(I, x, K, max_piece=None):
+    b = z3.Function(I.namer.fresh("split_b"), z3.IntSort(), z3.IntSort())
+    n = to_int(x.length)
+    k = z3.Int(I.namer.fresh("q_k"))
+    I.assume(z3.And(K >= 1, b(0) == 0, b(K) == n))
+    I.assume(z3.ForAll([k], z3.Implies(z3.And(0 <= k, k < K),
+                                       b(k) <= b(k + 1))))
+    if max_piece is not None:
+        I.assume(z3.ForAll([k], z3.Implies(
+            z3.And(0 <= k, k < K), b(k + 1) - b(k) <= to_int(max_piece))))
+    return ChunkList(x, K, b)
+
+
+@lib("numpy.array_split")
+def _array_split(I, x, sections, **kw):
+    x = _val(x)
+    if not isinstance(x, SymSeq):
+        raise Unsupported("array_split of non-seq")
+    if sections is None:
+        I.fail(f"array_split_sections_None@{I.cur_line}")
+    if isinstance(sections, OptVal):
+        I.oblige(f"array_split_sections_not_None@{I.cur_line}",
+                 sections.present, "lib_requires")
+        sections = sections.value
+    if isinstance(sections, SymRange):
+        # split points c, 2c, ... < n  (sections = range(c, n, c))
+        c = sections.lo
+        if not (isinstance(sections.step, int) or
+                sections.step is c or (is_z3(sections.step) and
+                                       sections.step.eq(to_z3(c)))):
+            raise Unsupported("array_split with a general range")
+        K = I.fresh_const("nchunks", z3.IntSort())
+        I.oblige(f"array_split_step_positive@{I.cur_line}", to_int(c) >= 1,
+                 "lib_requires")
+        return _mk_chunks(I, x, K, max_piece=c)
+    if isinstance(sections, int) or (is_z3(sections) and
+                                      z3.is_int(sections)):
+        I.oblige(f"array_split_sections_positive@{I.cur_line}",
+                 to_int(sections) >= 1, "lib_requires")
+        return _mk_chunks(I, x, to_int(sections))
+    raise Unsupported(f"array_split sections {sections!r}")
+
+
+# range(c, n, c) with symbolic step == start
+_old_range = LIB["builtins.range"].fn
+
+
+@lib("builtins.range")
+def _range2(I, *a):
+    if len(a) == 3 and not isinstance(a[2], int):
+        return SymRange(a[0], a[1], a[2])
+    return _old_range(I, *a)
+
+
+@lib("builtins.map")
+def _map(I, f, it):
+    if isinstance(f, FuncVal) and isinstance(it, ChunkList):
+        return MappedChunks(it, f)
+    if isinstance(f, FuncVal):
+        s = as_seq(I, it)
+        return Cell("list", SymSeq(s.length, lambda i: f.f1(s.get(i)),
+                                   "Real"))
+    items = concrete_iter(I, it, must=True)
+    return [I.call(f, [x], {}) for x in items]
+
+
+_old_list = LIB["builtins.list"].fn
+
+
+@lib("builtins.list")
+def _list2(I, x=()):
+    if isinstance(x, MappedChunks):
+        return x
+    return _old_list(I, x)
+
+
+@lib("numpy.concatenate")
+def _concatenate(I, parts, **kw):
+    if isinstance(parts, MappedChunks):
+        ch, fv = parts.chunks, parts.fv
+        n = to_int(ch.x.length)
+        kof = z3.Function(I.namer.fresh("chunk_of"), z3.IntSort(),
+                          z3.IntSort())
+        i = z3.Int(I.namer.fresh("q_i"))
+        # every index lies in exactly one piece (pieces partition [0, n))
+        I.assume(z3.ForAll([i], z3.Implies(
+            z3.And(0 <= i, i < n),
+            z3.And(0 <= kof(i), kof(i) < ch.K, ch.b(kof(i)) <= i,
+                   i < ch.b(kof(i) + 1)))))
+
+        def get(j):
+            j = to_int(j)
+            k = kof(j)
+            piece = ch.piece(k)
+            img = fv.apply(I, piece)
+            return _val(img).get(j - ch.b(k))
+        return Cell("arr", SymSeq(ch.x.length, get, "Real"))
+    items = concrete_iter(I, parts)
+    if items is not None and len(items) == 2:
+        a, b = [_val(p) for p in items]
+        if isinstance(a, SymSeq) and isinstance(b, SymSeq):
+            na = to_int(a.length)
+            return Cell("arr", SymSeq(
+                na + to_int(b.length),
+                lambda i: ite(to_int(i) < na, a.get(i),
+                              b.get(to_int(i) - na)), a.elem))
+        if isinstance(a, SymStruct) and isinstance(b, SymStruct):
+            na = to_int(a.length)
+            n = na + to_int(b.length)
+            return Cell("arr", SymStruct(n, {
+                f: SymSeq(n, (lambda i, q=q, r=b.fields[f]: ite(
+                    to_int(i) < na, q.get(i), r.get(to_int(i) - na))),
+                    q.elem) for f, q in a.fields.items()}))
+    raise Unsupported("np.concatenate of this shape")
+
+
+@method("seq", "flatten")
+def _seq_flatten(I, b):
+    return Cell("arr", _val(b))
+
+
+@method("list", "flatten")
+def _list_flatten(I, b):
+    return Cell("arr", _val(b))
+
+
+@method("seq", "astype")
+def _seq_astype(I, b, *a, **k):
+    return Cell("arr", _val(b))
+
+
+@lib("spec.pointwise")
+def _spec_pointwise(I, f, p):
+    if isinstance(f, OptVal):
+        f = f.value
+    if not isinstance(f, FuncVal):
+        raise SpecError("pointwise() of a non-function")
+    return f.f1(p)
+
+
+@lib("spec.same_function")
+def _spec_same_function(I, a, b):
+    def conv(v):
+        if isinstance(v, E.PkgFunc):
+            con = C.CONTRACTS.get((v.file, v.qual))
+            attr = con.extra.get("wraps_model_attr") if con else None
+            gm = I.V.global_model
+            if attr is None or gm is None:
+                raise SpecError(f"same_function: {v.qual} has no "
+                                f"wraps_model_attr / no global model")
+            return gm.attrs[attr]
+        return v
+    guard = None
+    if isinstance(a, OptVal):
+        guard, a = a.present, a.value
+    a, b = conv(a), conv(b)
+    if a is b:
+        return True
+    p = z3.Const(I.namer.fresh("q_p"), a.f1.domain(0))
+    eq = z3.ForAll([p], a.f1(p) == b.f1(p))
+    return z3.Implies(guard, eq) if guard is not None else eq
+
+
+
+@method("pool", "map")
+def _pool_map(I, b, f, it):
+    # order-preserving, like builtins.map followed by list()
+    return _map(I, f, it)
+
+
+@lib("spec.global_model")
+def _spec_global_model(I):
+    return I.V.global_model
+
+
+@lib("spec.from_uh")
+def _spec_from_uh(I, p):
+    f = z3.Function("FROM_UH", p.sort(), p.sort())
+    return f(p)
+
+
+@lib("multiprocessing.Pool")
+def _mp_pool(I, *a, **k):
+    return PoolVal()
